@@ -171,7 +171,7 @@ def run(ctx):
         for cuts, lazy, obs in obs_by_chunk:
             ci = reader.canon_impl(obs)
             for o in ci:
-                res.count("outcome:" + o[0] + (":" + o[1] if o[0] == "E" else ""))
+                res.count("outcome:" + o[0])
             if ci != model:
                 res.fail("corr", dict(stream=s.hex(), cuts=list(cuts) if cuts != "1-byte" else "1-byte", lazy=lazy, label=label),
                          model, ci, "reader model and FrameReader.read() differ")
